@@ -27,7 +27,7 @@ type histStats struct {
 }
 
 func opsOf(thorough bool) []string {
-	ops := append(append([]string{}, clirig.RefreshOps...), clirig.ReadOps...)
+	ops := append(append(append([]string{}, clirig.RefreshOps...), clirig.ReadOps...), clirig.OtherOps...)
 	if thorough {
 		ops = append(ops, clirig.MoreReadOps...)
 	}
